@@ -11,21 +11,21 @@ LEVEL_TEXT = {
  "C04": COMMON + "Here: conversion helpers for all price/amount pairs (ceil/floor bounds) and, on the real matching result, the payment bands per bidder (paid*S >= price*qty, < price*qty + k*S, <= reserved, clearing price <= own limit, losers refunded in full).",
  "C05": COMMON + "Here: allocations from real matching/settlement never exceed cap, request or supply (batch: on the matching result; fixed price: accept-iff cumulative cap and remainder at bid time, allocation = sum of accepted quantities at settlement).",
  "C06": COMMON + "Here: MsgPlaceBid on a fixed-price auction from an arbitrary RI-state with up to N earlier bids: accept iff reference predicate (both directions), remainder decremented exactly, earlier bids untouched, escrow and bidder deltas exact.",
- "C07": COMMON + "Here: BeginBlocker from every RI-state of one and two auctions (all types/statuses) at a symbolic block time returns nil and does not panic; with a failure injected into the k-th bank call of the block (every k), the block returns an error whichever auction the call belonged to.",
+ "C07": COMMON + "Here: BeginBlocker from every RI-state of one and two auctions (all types/statuses) at a symbolic block time returns nil and does not panic; with a failure injected into the k-th bank call of the block (every k), the block returns an error whichever auction the call belonged to and whichever round (final, extending or early-settling) the batch auction is in.",
  "C08": COMMON + "Here: status relation and timing of every operation with symbolic instants (start/end/release vs block time, including equality): waiting->open iff start<=t (settling in the same block when the end is reached too), open->settled/extended iff end<=t, terminal statuses permanent, creation open iff start<=t, bids/modifications/cancel only in the right status.",
  "C09": COMMON + "Here: at settlement the instalments are floor shares with the remainder in the last and sum exactly to the proceeds (k<=2 quick, k<=4 thorough); a vesting auction pays an instalment in a block iff it is due and unreleased, flags it, never twice, and finishes iff all are released.",
  "C10": COMMON + "Here: (1) PlaceBid accepts only allow-listed bidders (RI conjunct: every stored bid has an entry; no operation removes entries); (2) MsgAddAllowedBidder writes only when the process-wide switch is true (switch symbolic); (3) the switch's value after executing, with the same executor, the package initialisers of every in-module package in cmd/fundraisingd's import closure that names the variable (every SSA Store to it is listed).",
  "C11": COMMON + "Here: MsgModifyBid accept iff owner, open batch auction, same denom, price floor, both not lower and one higher, funds for the difference of ceilings; charged difference exact; other bids and bid identity unchanged; no operation removes a bid or lowers its reservation.",
  "C12": COMMON + "Here: MsgCancelAuction for every signer x status x type x existence: accepted iff auctioneer and waiting; on accept the whole escrow goes back, remainder zero, status cancelled; with C08 (cancelled/opened permanent) nobody can cancel after opening.",
  "C13": COMMON + "Here: at an end time with rounds left the real decision (banker's-rounded decimal quotient) is compared with the exact rule up to a one-ulp band, L (stored count) symbolic, C from real matching; extension appends exactly one period; len(EndTimes) <= MaxExtendedRound+1 <= 31 is inductive.",
- "C14": COMMON + "Here: self-composition: the same settlement block is executed twice from identical symbolic states, the second time with every range over a Go map inside the module iterating in an arbitrary order (one site at a time in quick, all combinations in thorough); ordered bank transfers, result, records and balances must coincide. A static SSA scan lists every map range / go / select / clock / random source in module code and fails the check if one is not exercised.",
+ "C14": COMMON + "Here: self-composition: the same settlement block is executed twice from identical symbolic states, the second time with every range over a Go map inside the module iterating in an arbitrary order (one site at a time in quick, all combinations in thorough); ordered bank transfers, result, records and balances must coincide. Process independence: the same committed PlaceBid on two processes, one of which first executed a PlaceBid on a branched context that is thrown away (store and events rolled back, process memory kept), must store the same bid, counter, transfers, balances and events. A static SSA scan lists every map range / go / select / clock / random source in module code and fails the check if one is not exercised.",
  "C15": COMMON + "Here: ExportGenesis from RI-states (2 allowed bidders, bids, instalments, mid-extension batch auctions) -> GenesisState.Validate must accept -> InitGenesis into an empty store -> every record, sequence and parameter equal; then the same later block on both.",
  "C16": COMMON + "Here: final settlement of a batch auction whose bids carry arbitrary provisional flags: flag iff the bidder received coins, published matched price = price actually paid (0 iff nothing sold); Get*/List* query handlers (closures executed, paginator modelled as an ordered walk) return exactly the stored objects satisfying the request.",
- "C17": COMMON + "Here: the multi-listener dispatcher for each of the ten hook methods, n listeners, every failing position: error iff a listener failed, listeners before it called once with the dispatcher's own argument terms, later ones not called; and each call site: success => called exactly once with the values stored/transferred and before (after, for After*) the record is written; veto => the operation (or the block) reports an error.",
+ "C17": COMMON + "Here: the multi-listener dispatcher for each of the ten hook methods, n listeners, every failing position: error iff a listener failed, listeners before it called once with the dispatcher's own argument terms, later ones not called; and each call site: success => called exactly once with the values stored/transferred and before (after, for After*) the record is written; veto => the operation (or the block) reports an error — in the final round and in the early-settlement branch of an extended batch auction; the ModifyBid listener is told the recorded bidder whichever bech32 case the signer used.",
  "C18": COMMON + "Here: each message type with all fields symbolic including malformed ones (signs, denoms, addresses, times, bid types, absent auction) in RI-states of every type/status: ValidateBasic+handler accepts iff a reference predicate written from the documentation (both directions), and an accepted message stores exactly the announced record.",
  "C19": COMMON + "Here: frame: with a bystander auction B sharing auctioneer, bidder and denoms, processing/operating on A leaves every record, counter and escrow balance of B term-identical; terms: after every operation the agreed terms of the target auction and the identity of its bids are unchanged; ids: creation uses AuctionSeq and increments it, bids get BidSeq+1.",
 }
-NOTES = {p: "Trusted base: exact integer semantics of ~60 cosmossdk.io/math intrinsics (validated every run by witness replay of real arithmetic), store/bank/distribution/context models (every harness's witness scenario is replayed against simapp with the real x/bank and KV store and all observed values must agree), go/ssa. Bounds per tier are in checks.tsv and in the evidence (harness bounds), summarised in DESIGN.md section 12 'Bounds as finally registered': quick = 1 target auction (+1 bystander), general shapes with <=1 bid and <=2 instalments/end times plus narrow multi-bid variants (2 fixed-price bids, 2 batch bids in the second round, 3-bid order books in the matching harness, 4 instalments), amounts and raw prices < 2^100; thorough = general shapes with <=3 instalments/end times and 2 candidate bidders, narrow variants with 2-3 bids of up to 2 bidders, 3-4 bid order books, message harnesses with <=2 existing bids, < 2^128. Every 100th discharged assertion is re-checked by a second solver (cvc5). Overflow panics of the 256/315-bit library limits are outside the claim (amounts bounded). Atomicity of rejected transactions is the SDK cache-context contract (assumed)." for p in LEVEL_TEXT}
+NOTES = {p: "Trusted base: exact integer semantics of ~60 cosmossdk.io/math intrinsics (validated every run by witness replay of real arithmetic), store/bank/distribution/context models (every harness's witness scenario is replayed against simapp with the real x/bank and KV store and all observed values must agree), go/ssa. Bounds per tier are in checks.tsv and in the evidence (harness bounds), summarised in DESIGN.md section 12 'Bounds as finally registered': quick = 1 target auction (+1 bystander), general shapes with <=1 bid and <=2 instalments/end times plus narrow multi-bid variants (2 fixed-price bids, 2 batch bids in the second round, 3-bid order books in the matching harness, 4 instalments), amounts and raw prices < 2^100; thorough = general shapes with <=3 instalments/end times and 2 candidate bidders, narrow variants with 2-3 bids of up to 2 bidders, 3-4 bid order books, message harnesses with <=2 existing bids (C12: 3), < 2^128; listeners <=3 quick, <=4 thorough. Every 100th discharged assertion is re-checked by a second solver (cvc5). Overflow panics of the 256/315-bit library limits are outside the claim (amounts bounded). Atomicity of rejected transactions is the SDK cache-context contract (assumed)." for p in LEVEL_TEXT}
 NOT_APPLICABLE = {
  "C20": "start-up and command wiring of the linked binary is decided by reflection-heavy dependency code (autocli/cobra/protoregistry) over a constant command table; there is no symbolic input to quantify over and the code is out of reach of the SSA encoder (DESIGN §7)",
 }
